@@ -2,6 +2,7 @@ package sigsrv
 
 import (
 	"fmt"
+	"math/rand/v2"
 	"strings"
 	"testing"
 
@@ -27,16 +28,143 @@ var c20badKinds = []string{"stale", "future", "foreign", "replay", "badsig", "ta
 	"ack-unsol", "ack-dup", "clear-unsol", "init-again", "nilbody",
 	"preinit-send", "preinit-ack", "preinit-seqno", "preinit-self", "preinit-badid", "preinit-empty"}
 
+// c20histKinds: HISTORY-dependent submissions, derived from a message the
+// server already verified and accepted from the same client: "hist:<kind>"
+// (g7sig.DeriveKinds, never authentic) and exact replays of the own message
+// (authentic: they may be forwarded).
+var c20histKinds = func() []string {
+	ks := []string{"hist-replay", "hist-replay-newseq"}
+	for _, k := range g7sig.DeriveKinds {
+		ks = append(ks, "hist:"+k)
+	}
+	return ks
+}()
+
+func c20randOp(rng *rand.Rand) c20op {
+	o := c20op{x: rng.IntN(3), n: rng.IntN(1 << 16)}
+	o.y = (o.x + 1 + rng.IntN(2)) % 3
+	o.z = 3 - o.x - o.y
+	if rng.IntN(3) == 0 {
+		o.z = o.y
+	}
+	return o
+}
+
+// genC20HistProg generates a program in which forged submissions are derived
+// from messages the server accepted earlier on the same stream / session /
+// from the same client. Motif: honest send on x->y, then (immediately / after
+// the partner acked it / after the partner or the sender re-attached / after
+// an exact replay / after further honest sends / after unrelated steps) a
+// variant of an accepted message on x->y.
+func genC20HistProg(rng *rand.Rand) []c20op {
+	l := 8 + rng.IntN(13)
+	var prog []c20op
+	hist := func(o c20op) c20op {
+		o.kind = c20histKinds[2+rng.IntN(len(c20histKinds)-2)]
+		o.n = rng.IntN(1 << 16)
+		return o
+	}
+	motif := func() {
+		o := c20randOp(rng)
+		o.kind = "send"
+		prog = append(prog, o)
+		rev := o
+		rev.x, rev.y = o.y, o.x
+		mid := rng.IntN(14)
+		switch mid {
+		case 0, 1, 2, 3, 4:
+		case 5:
+			rev.kind = "ack"
+			prog = append(prog, rev)
+		case 6:
+			rev.kind = "attach" // partner re-attaches: epoch changes, the sender's call stays
+			prog = append(prog, rev)
+		case 7:
+			rev.kind = "detach"
+			prog = append(prog, rev)
+		case 8:
+			a := o
+			a.kind = "attach" // the sender replaces its own call
+			prog = append(prog, a)
+		case 9:
+			a := o
+			a.kind = []string{"hist-replay", "hist-replay-newseq"}[rng.IntN(2)]
+			a.n = rng.IntN(1 << 16) &^ (3 << 4) // replay of the latest message on this call
+			prog = append(prog, a)
+		case 10:
+			for k := 1 + rng.IntN(2); k > 0; k-- {
+				a := o
+				a.kind = "send"
+				prog = append(prog, a)
+				if rng.IntN(2) == 0 {
+					rev.kind = "ack"
+					prog = append(prog, rev)
+				}
+			}
+		case 11:
+			a := o
+			a.kind = []string{"clear", "stale", "ack-unsol", "clear-unsol"}[rng.IntN(4)]
+			a.n = rng.IntN(1 << 16)
+			prog = append(prog, a)
+		case 12:
+			for k := 1 + rng.IntN(3); k > 0; k-- {
+				a := c20randOp(rng)
+				a.kind = c20honestKinds[rng.IntN(len(c20honestKinds))]
+				prog = append(prog, a)
+			}
+		case 13:
+			rev.kind = "send" // traffic in the other direction
+			prog = append(prog, rev)
+		}
+		h := hist(o)
+		if mid <= 4 || mid == 9 {
+			h.n &^= 3 << 4 // scope: this call (the variant follows its source directly)
+		}
+		if mid <= 4 && rng.IntN(3) > 0 {
+			h.n &^= 3 << 6 // source: the latest accepted message
+		}
+		prog = append(prog, h)
+	}
+	at := rng.IntN(4)
+	for len(prog) < l {
+		if at >= 0 && len(prog) >= at {
+			motif()
+			at = -1
+			continue
+		}
+		o := c20randOp(rng)
+		switch x := rng.IntN(100); {
+		case x < 45:
+			o.kind = c20honestKinds[rng.IntN(len(c20honestKinds))]
+		case x < 60:
+			o.kind = c20badKinds[rng.IntN(len(c20badKinds))]
+		case x < 85:
+			o.kind = c20histKinds[rng.IntN(len(c20histKinds))]
+		default:
+			motif()
+			continue
+		}
+		prog = append(prog, o)
+	}
+	return prog
+}
+
 func TestC20(t *testing.T) {
 	r := vf.Start(t, "C20", vf.Exploration)
 	defer r.Finish()
-	r.SetRule("case = PRNG program of 8-24 steps over 3 authenticated clients (each may turn malicious): honest sends/acks/clears/re-attach/detach mixed with: stale and future session_seqno, message signed by another client (authentic but not this stream's identity), replay of another client's valid message, claimed-self but signed with another key, tampered data/signature, missing/empty signature, hash type 0, other signing context, nil/empty message, unsolicited and duplicate acks, unsolicited clears, second Init, empty body, and calls whose first request is not a valid Init (non-Init, seqno!=0, self, bad id, empty id). The instance is quiescent before every submission, so the epoch at submission is exact. Oracle: every RecvMsg in the outbox of a call Q->P equals (byte for byte) a message that the harness submitted earlier on a call P->Q, that is honest (signed by P = stream identity under the signaling context, valid hash) and whose session_seqno == epoch at submission; future seqno => the call ends with an error; AckMsg(s) to P only if P's message s was delivered to Q and Q acked it afterwards (at most once per delivery); ClearMsg(s) to Q only if s was delivered to Q and P cleared it afterwards; a call with an invalid first request ends with an error and leaves VerifStateSizes unchanged. Non-trivial = at least one honest message forwarded and at least one hostile step executed; distinct = program")
+	r.SetRule("case = PRNG program of 8-24 steps over 3 authenticated clients (each may turn malicious): honest sends/acks/clears/re-attach/detach mixed with: stale and future session_seqno, message signed by another client (authentic but not this stream's identity), replay of another client's valid message, claimed-self but signed with another key, tampered data/signature, missing/empty signature, hash type 0, other signing context, nil/empty message, unsolicited and duplicate acks, unsolicited clears, second Init, empty body, and calls whose first request is not a valid Init (non-Init, seqno!=0, self, bad id, empty id). A second family of programs (8-20+ steps) adds HISTORY-dependent forgeries: submissions derived from a message the server already verified and accepted from the same client (its signature bytes + sender with a new / bit-flipped / appended / truncated payload, another hash type, a pub_key field of another client or of itself plus a new payload, re-attributed to another client; the payload under the signature of another accepted message and vice versa; the payload re-signed by another key or under another context; extended signature), source = latest / previous-but-one / third-latest accepted message of this call, of any earlier call x->y or of any call of x, submitted immediately after the source, after the partner acked it, after the partner or the sender re-attached (new epoch / new call), after an exact replay of the own message (authentic, may be forwarded), after further honest sends or unrelated steps; every such program holds at least one original->variant motif. The instance is quiescent before every submission, so the epoch at submission is exact. Oracle: every RecvMsg in the outbox of a call Q->P equals (byte for byte) a message that the harness submitted earlier on a call P->Q, that is honest (signed by P = stream identity under the signaling context, valid hash) and whose session_seqno == epoch at submission; future seqno => the call ends with an error; AckMsg(s) to P only if P's message s was delivered to Q and Q acked it afterwards (at most once per delivery); ClearMsg(s) to Q only if s was delivered to Q and P cleared it afterwards; a call with an invalid first request ends with an error and leaves VerifStateSizes unchanged. Non-trivial = at least one honest message forwarded and at least one hostile step executed; distinct = program")
 	r.Assume("honest messages are built with signaling.NewSessionMsg; honest/forged is known by construction, never inferred from the server's reaction")
 	rng := r.Rand("c20")
 	pool := keys.Pool(rng, 3)
-	n := r.N(300, 5000)
+	n0 := r.N(300, 5000)
+	nh := r.N(240, 3000)
+	n := n0 + nh
 	progs := make([][]c20op, n)
-	for i := range progs {
+	hrng := r.Rand("c20-history")
+	for i := n0; i < n; i++ {
+		progs[i] = genC20HistProg(hrng)
+	}
+	for i := 0; i < n0; i++ {
 		l := 8 + rng.IntN(17)
 		for k := 0; k < l; k++ {
 			o := c20op{x: rng.IntN(3), n: rng.IntN(1 << 16)}
@@ -65,6 +193,11 @@ func TestC20(t *testing.T) {
 type c20state struct {
 	w        *world
 	cur      map[[2]int]*g7sig.Call
+	// authentic messages submitted so far, in order: per call, per directed pair
+	// "src|dst" and per sender (the sources of the history-dependent forgeries)
+	histCall map[*g7sig.Call][]*signaling.SessionMsg
+	histPair map[string][]*signaling.SessionMsg
+	histSrc  map[string][]*signaling.SessionMsg
 	lastSent map[[2]int]uint64 // last honest message seqno submitted on x->y
 	acked    map[[2]int][]uint64
 	unsol    uint64
@@ -104,7 +237,7 @@ func runC20(r *vf.Run, pool []*keys.Identity, idx int, prog []c20op) {
 	sig := strings.Join(ps, " ")
 	w := newWorld(r, fmt.Sprintf("c20#%d", idx), pool)
 	defer w.end()
-	s := &c20state{w: w, cur: map[[2]int]*g7sig.Call{}, lastSent: map[[2]int]uint64{}, acked: map[[2]int][]uint64{}, unsol: 1 << 40}
+	s := &c20state{w: w, cur: map[[2]int]*g7sig.Call{}, histCall: map[*g7sig.Call][]*signaling.SessionMsg{}, histPair: map[string][]*signaling.SessionMsg{}, histSrc: map[string][]*signaling.SessionMsg{}, lastSent: map[[2]int]uint64{}, acked: map[[2]int][]uint64{}, unsol: 1 << 40}
 	hostile := 0
 	pidS := func(i int) string { return pool[i].String() }
 	nextSeq := func(x int) uint64 { w.msgSeq[pidS(x)]++; return w.msgSeq[pidS(x)] }
@@ -115,6 +248,13 @@ func runC20(r *vf.Run, pool []*keys.Identity, idx int, prog []c20op) {
 		w.subs[key] = append(w.subs[key], &subRec{call: c, clock: clk, sessSeqno: sess, epochAt: epoch, epochOK: true, msg: m.CloneVT(), honest: honest, class: class})
 		w.logf("%s submits SendMsg[%s](seq %d) session_seqno=%d (epoch %d)", w.cstr(c), class, m.GetSeqno(), sess, epoch)
 		r.Count("submitted_"+class, 1)
+		if honest && !strings.HasPrefix(class, "honest-replay") {
+			// distinct originals only: a replay is the same envelope again
+			cp := m.CloneVT()
+			s.histCall[c] = append(s.histCall[c], cp)
+			s.histPair[c.Src+"|"+c.Dst] = append(s.histPair[c.Src+"|"+c.Dst], cp)
+			s.histSrc[c.Src] = append(s.histSrc[c.Src], cp)
+		}
 	}
 	for _, o := range prog {
 		x, y, z := o.x, o.y, o.z
@@ -192,6 +332,79 @@ func runC20(r *vf.Run, pool []*keys.Identity, idx int, prog []c20op) {
 		}
 		e, _, _ := w.h.Srv.VerifSessionEpoch(pidS(x), pidS(y))
 		r.Count("op_"+o.kind, 1)
+		if strings.HasPrefix(o.kind, "hist") {
+			// a submission derived from a message the server accepted earlier from x:
+			// scope (bits 4-5 of n) = this call / any call x->y / any call of x;
+			// source (bits 6-7) = latest, previous-but-one, third-latest of that scope
+			hostile++
+			scope := []string{"call", "call", "pair", "sender"}[(o.n>>4)&3]
+			pick := func() []*signaling.SessionMsg {
+				switch scope {
+				case "pair":
+					if l := s.histPair[c.Src+"|"+c.Dst]; len(l) > 0 {
+						return l
+					}
+				case "sender":
+					if l := s.histSrc[c.Src]; len(l) > 0 {
+						return l
+					}
+				}
+				scope = "call"
+				return s.histCall[c]
+			}
+			list := pick()
+			if len(list) == 0 {
+				// nothing accepted yet: first an honest message on this call
+				m := g7sig.Honest(pool[x], payload(), nextSeq(x))
+				s.lastSent[k] = m.Seqno
+				submitMsg(c, e, e, m, true, "honest")
+				if !w.quiesce() {
+					r.Case(sig, false)
+					return
+				}
+				if c = s.live(x, y); c == nil {
+					continue
+				}
+				list = s.histCall[c]
+			}
+			back := 1 + (o.n>>6)&3%3
+			if back > len(list) {
+				back = len(list)
+			}
+			i := len(list) - back
+			h, h2 := list[i], list[i]
+			if i > 0 {
+				h2 = list[i-1]
+			} else if i+1 < len(list) {
+				h2 = list[i+1]
+			}
+			seq := h.Seqno
+			if (o.n>>3)&1 == 1 {
+				seq = nextSeq(x)
+			}
+			dist := len(s.histCall[c]) // authentic messages on this call since (and including) the source
+			r.Distinct("c20_hist_kind_x_scope_x_back", fmt.Sprintf("%s/%s/back%d", o.kind, scope, back))
+			switch o.kind {
+			case "hist-replay":
+				submitMsg(c, e, e, h.CloneVT(), true, "honest-replay-of-own")
+			case "hist-replay-newseq":
+				m := h.CloneVT()
+				m.Seqno = nextSeq(x)
+				submitMsg(c, e, e, m, true, "honest-replay-of-own-new-seqno")
+			default:
+				m := g7sig.Derive(o.kind[5:], h, h2, pool[x], pool[z], payload(), seq, o.n)
+				submitMsg(c, e, e, m, false, "derived/"+o.kind[5:])
+				r.Count("derived_from_accepted_submitted", 1)
+				if scope == "call" && dist > 0 {
+					r.Count("derived_from_accepted_on_same_call", 1)
+				}
+			}
+			if !w.quiesce() {
+				r.Case(sig, false)
+				return
+			}
+			continue
+		}
 		switch o.kind {
 		case "send":
 			m := g7sig.Honest(pool[x], payload(), nextSeq(x))
